@@ -29,6 +29,7 @@ def run(chk):
     f = chk.facts
     ip = I.Interp(f)
     rule_rank(chk, ip)
+    rule_dimension_total(chk, ip)
     fft = chk.anchor("C16.anchor/find_function_type", f.fn("find_function_type", TY), "find_function_type")
     if fft:
         rule_unique(chk, fft)
@@ -314,3 +315,99 @@ def rule_arity(chk, fft):
                "a candidate is tried without the `param_types.len() >= non_default_params` test", where(fft, t.get("ln")))
         chk.ob("C16.arity/max", ok2, "candidate considered only if args <= parameter count" if ok2 else
                "a candidate is tried without the `param_types.len() <= signature.param_types.len()` test", where(fft, t.get("ln")))
+
+
+# ------------------------------------------------------------------ find <-> get_rank agreement on dimension casts
+
+def dims():
+    out = [("Scalar", None)]
+    out += [("Vector", n) for n in (1, 2, 3, 4)]
+    out += [("Matrix", (2, 2)), ("Matrix", (4, 4)), ("Matrix", (3, 4))]
+    return out
+
+
+def layer(kind, arg, scalar_id=7):
+    tid = I.Enum("TypeId", None, {"0": scalar_id})
+    if kind == "Scalar":
+        return I.Enum("TypeLayer", "Scalar", {"0": I.Enum("ScalarType", "Float32")})
+    if kind == "Vector":
+        return I.Enum("TypeLayer", "Vector", {"0": tid, "1": arg})
+    return I.Enum("TypeLayer", "Matrix", {"0": tid, "1": arg[0], "2": arg[1]})
+
+
+def rule_dimension_total(chk, ip, prefix="C16.rank"):
+    """Every DimensionCast that ImplicitConversion::find can construct is ranked by get_rank without aborting."""
+    f = chk.facts
+    find = f.fn("find", TY, self_ty="ImplicitConversion")
+    gr = f.fn("get_rank", TY, self_ty="ImplicitConversion")
+    if not find or not gr:
+        chk.ob(prefix + "/dimension-total", False, "anchor-missing: ImplicitConversion::find / get_rank", TY)
+        return
+    dm = None
+    for m in F.exprs(find["thir"], "Match"):
+        st = F.strip(m["scrut"]).get("ty", "")
+        if st.endswith("TypeLayer") and any(short(a["adt"]) == "DimensionCast" for a in F.exprs(m, "Adt")):
+            if dm is None or len(list(F.walk(m))) > len(list(F.walk(dm))):
+                dm = m
+    rm = None
+    for m in F.exprs(gr["thir"], "Match"):
+        if "DimensionCast" in F.strip(m["scrut"]).get("ty", ""):
+            rm = m
+    if dm is None or rm is None:
+        chk.ob(prefix + "/dimension-total", False, "anchor-missing: the dimension-cast match of find / get_rank", where(find))
+        return
+    names = {}
+    for v in F.exprs(dm, "Var"):
+        names.setdefault(v["name"], v["id"])
+    need = ["source_l", "dest_l", "dest", "source_id", "dest_id"]
+    if not all(n in names for n in need):
+        chk.ob(prefix + "/dimension-total", False, "anchor-missing: variables %s of the dimension-cast match" % [n for n in need if n not in names], where(find, dm))
+        return
+    rv = F.leftmost_var(rm["scrut"])
+    n = 0
+    seen = {}
+    for sk, sa in dims():
+        for dk, da in dims():
+            for lval in (False, True):
+                env = {names["source_l"]: layer(sk, sa), names["dest_l"]: layer(dk, da),
+                       names["dest"]: I.Enum("ExpressionType", None, {"0": I.Enum("TypeId", None, {"0": 100}),
+                                                                       "1": I.Enum("ValueType", "Lvalue" if lval else "Rvalue")}),
+                       names["source_id"]: I.Enum("TypeId", None, {"0": 7 if sk == "Scalar" else 50}),
+                       names["dest_id"]: I.Enum("TypeId", None, {"0": 7 if dk == "Scalar" else 51})}
+                try:
+                    cast = ip.ev(dm, env)
+                except I.ReturnEx:
+                    continue      # conversion refused
+                except I.Unknown as e:
+                    chk.ob(prefix + "/dimension-total/readable", False, "dimension-cast table of find not readable: %s" % e, where(find, dm))
+                    return
+                if not isinstance(cast, I.Enum) or cast.variant != "Some":
+                    continue
+                dc = cast.fields["0"]
+                shape = "%s->%s" % (dim_name(dc.fields.get("0")), dim_name(dc.fields.get("1")))
+                if shape in seen:
+                    continue
+                n += 1
+                try:
+                    r = ip.ev(rm, {rv["id"]: cast}) if rv else None
+                    res = r.variant if isinstance(r, I.Enum) else str(r)
+                    ok = res in ("Exact", "Expand", "Contract")
+                except I.Unknown as e:
+                    res, ok = "aborts (%s)" % e, False
+                seen[shape] = res
+                chk.ob(prefix + "/dimension-total/%s" % shape.replace("(", "").replace(")", "").replace(", ", "x"), ok,
+                       "find builds DimensionCast %s, get_rank ranks it %s" % (shape, res) if ok else
+                       "ImplicitConversion::find accepts the dimension cast %s but get_rank has no arm for it: overload "
+                       "resolution panics (%s)" % (shape, res), where(gr, rm), sample={"cast": shape, "rank": res})
+    chk.floor(prefix.replace(".rank", ".floor") + "/dimension-casts", n, 6, "distinct dimension-cast shapes constructed by find", where(find))
+
+
+def dim_name(d):
+    if not isinstance(d, I.Enum):
+        return "?"
+    if d.variant == "Scalar":
+        return "Scalar"
+    if d.variant == "Vector":
+        v = d.fields.get("0")
+        return "Vector(1)" if v == 1 else "Vector(n)"
+    return "Matrix"
